@@ -189,7 +189,7 @@ let handle_smtp (kind : string) (ins : string list) (outs : string list) : bool 
                  | B (PBlock (body, _, _)) ->
                      List.length body > int_of_string maxb && int_of_z (first_code r) = 250
                  | L (Mail (MParsed (SzVal n, _), _)) ->
-                     int_of_z n > int_of_string maxb && int_of_z (first_code r) = 250
+                     int_of_z_sat n > int_of_string maxb && int_of_z (first_code r) = 250
                  | _ -> false) dlg in
                if size_viol then add "C06:oversize-accepted";
                let within_refused = List.exists (fun (it, r) ->
@@ -200,7 +200,7 @@ let handle_smtp (kind : string) (ins : string list) (outs : string list) : bool 
                      (* a MAIL declaring nothing, or a size within the limit, refused for its size
                         (unless a hook denied the sender with that code itself) *)
                      (match h with Deny (_, _) -> false | _ -> true)
-                     && (match sz with SzNone -> true | SzVal n -> int_of_z n <= int_of_string maxb | SzBad -> false)
+                     && (match sz with SzNone -> true | SzVal n -> int_of_z_sat n <= int_of_string maxb | SzBad -> false)
                      && int_of_z (first_code r) = 552
                  | _ -> false) dlg in
                if within_refused then add "C06:within-limit-refused";
